@@ -178,6 +178,15 @@ def rand_rows(rng, T, dim, lim=4, maxpow=1):
     return [[str(core.dyadic(rng, lim, maxpow)) for _ in range(dim)] for _ in range(T)]
 
 
+def rand_rows_nz(rng, T, dim, lim=2, maxpow=1):
+    """rows with at least one non-zero entry each (input weights: the reservoir must see its input)"""
+    rows = rand_rows(rng, T, dim, lim, maxpow)
+    for r in rows:
+        if all(Fraction(v) == 0 for v in r):
+            r[rng.randrange(dim)] = str(Fraction(rng.choice([-1, 1]), 2 ** rng.randint(0, maxpow)))
+    return rows
+
+
 def rand_partition(rng, items):
     """random order + random cut into >= 1 non-empty batches"""
     items = list(items)
@@ -220,7 +229,7 @@ def gen_cases(rng, n_ridge, n_esn, n_legacy, n_run, thorough=False):
         cases.append({"kind": "esn", "din": din, "dout": dout, "N": N, "warmup": warmup, "bias": rng.random() < 0.7,
                       "ridge": str(Fraction(rng.choice([1, 2, 4]), 4)), "lr": rng.choice(["1", "1/2", "1/4"]),
                       "act": rng.choice(["id", "relu", "hardtanh"]),
-                      "W": rand_rows(rng, N, N, lim=2, maxpow=2), "Win": rand_rows(rng, N, din, lim=2, maxpow=1),
+                      "W": rand_rows(rng, N, N, lim=2, maxpow=2), "Win": rand_rows_nz(rng, N, din),
                       "b": rand_rows(rng, N, 1, lim=2, maxpow=1),
                       "X": Xs, "Y": Ys, "configs": cfg, "order": rng.sample(range(m), m),
                       "dwell_seed": rng.randint(0, 10 ** 6)})
@@ -233,7 +242,7 @@ def gen_cases(rng, n_ridge, n_esn, n_legacy, n_run, thorough=False):
         cases.append({"kind": "legacy", "din": din, "dout": dout, "N": N,
                       "ridge": str(Fraction(rng.choice([1, 2, 4]), 4)), "lr": rng.choice(["1", "1/2"]),
                       "act": rng.choice(["id", "hardtanh"]),
-                      "W": rand_rows(rng, N, N, lim=2, maxpow=2), "Win": rand_rows(rng, N, din + 1, lim=2, maxpow=1),
+                      "W": rand_rows(rng, N, N, lim=2, maxpow=2), "Win": rand_rows_nz(rng, N, din + 1),
                       "X": Xs, "Y": Ys, "workers": [1, 2, 4] + ([8] if thorough else []),
                       "backends": ["threading"] + (["loky"] if thorough and i % 4 == 0 else []),
                       "dwell_seed": rng.randint(0, 10 ** 6)})
@@ -244,7 +253,7 @@ def gen_cases(rng, n_ridge, n_esn, n_legacy, n_run, thorough=False):
         Xs = [rand_rows(rng, T, din) for T in lens]
         Xf, Yf = gen_dataset(rng, din, dout, 2, 0)
         cases.append({"kind": "run", "din": din, "dout": dout, "N": N, "ridge": "1/2", "lr": "1/2", "act": "hardtanh",
-                      "bias": True, "W": rand_rows(rng, N, N, lim=2, maxpow=2), "Win": rand_rows(rng, N, din, lim=2, maxpow=1),
+                      "bias": True, "W": rand_rows(rng, N, N, lim=2, maxpow=2), "Win": rand_rows_nz(rng, N, din),
                       "b": rand_rows(rng, N, 1, lim=2, maxpow=1), "Xfit": Xf, "Yfit": Yf, "X": Xs,
                       "configs": [(2, "threading"), (4, "threading")] + ([(3, "loky")] if thorough and i % 3 == 0 else []),
                       "arrival": rng.sample(range(m), m)})
